@@ -34,7 +34,8 @@ func (o goMapObject) toKey(name string) reflect.Value {
 	if err != nil {
 		panic(conversionException(err))
 	}
-	return reflectValue
+	// The key type may be a named type of that kind.
+	return reflectValue.Convert(o.keyType)
 }
 
 func (o goMapObject) toValue(value Value) reflect.Value {
@@ -61,7 +62,7 @@ func goMapGetOwnProperty(obj *object, name string) *property {
 		return nil
 	}
 
-	value := goObj.value.MapIndex(key)
+	value := goObj.value.MapIndex(key.Convert(goObj.keyType))
 	if value.IsValid() {
 		return &property{obj.runtime.toValue(value.Interface()), 0o111}
 	}
